@@ -494,6 +494,17 @@ def delayed_xml(rng):
   return xml, h
 
 
+LOCKSTEP_TOL = 1e-4  # on ndiff; a wrong / missing / shifted sample shows up as O(ctrl or sensor change) = 1e-1 .. 1
+
+
+def ndiff(a, b):
+  """max |a-b| / (1 + max(|a|,|b|)) componentwise: absolute for small values, relative for large ones."""
+  a, b = np.asarray(a, dtype=np.float64), np.asarray(b, dtype=np.float64)
+  if a.size == 0:
+    return 0.0
+  return float((np.abs(a - b) / (1.0 + np.maximum(np.abs(a), np.abs(b)))).max())
+
+
 def lockstep(xml, ctrls, start, pre=None):
   """Step mujoco and mujoco_warp with the same controls. start: 'put' | 'make' | 'reset'.
   Returns worst abs differences and the step at which the first disagreement occurs."""
@@ -541,19 +552,26 @@ def lockstep(xml, ctrls, start, pre=None):
     mujoco.mj_step(mjm, mjd)
     mjw.step(m, d)
     cur = {
-      "qpos": float(np.abs(mjd.qpos - d.qpos.numpy()[0]).max()),
-      "actuator_force": float(np.abs(mjd.actuator_force - d.actuator_force.numpy()[0]).max()) if mjm.nu else 0.0,
-      "sensordata": float(np.abs(mjd.sensordata - d.sensordata.numpy()[0]).max()) if mjm.nsensordata else 0.0,
-      "history": float(np.abs(mjd.history - d.history.numpy()[0]).max()) if mjm.nhistory else 0.0,
+      "qpos": ndiff(mjd.qpos, d.qpos.numpy()[0]),
+      "actuator_force": ndiff(mjd.actuator_force, d.actuator_force.numpy()[0]) if mjm.nu else 0.0,
+      "sensordata": ndiff(mjd.sensordata, d.sensordata.numpy()[0]) if mjm.nsensordata else 0.0,
+      "history": ndiff(mjd.history, d.history.numpy()[0]) if mjm.nhistory else 0.0,
     }
     if mjm.nu:
       out = wp.zeros(1, dtype=float)
       mjw.read_ctrl(m, d, 0, d.time, -1, out)
-      cur["read_ctrl"] = abs(float(out.numpy()[0]) - float(mujoco.mj_readCtrl(mjm, mjd, 0, mjd.time, -1)))
+      cur["read_ctrl"] = ndiff([float(out.numpy()[0])], [float(mujoco.mj_readCtrl(mjm, mjd, 0, mjd.time, -1))])
+    # re-synchronise the mechanical state (NOT the history buffers) from the float64 reference after comparing, so that
+    # float32 trajectory drift (joint velocities of 50 rad/s differ by 1e-3 after 30 steps) does not accumulate: what
+    # is compared at the next step is one step of dynamics + the delay/interval logic on MJWarp's own recorded history
+    wp.copy(d.qpos, wp.array(np.array([mjd.qpos], dtype=np.float32), dtype=float))
+    wp.copy(d.qvel, wp.array(np.array([mjd.qvel], dtype=np.float32), dtype=float))
+    if mjm.na:
+      wp.copy(d.act, wp.array(np.array([mjd.act], dtype=np.float32), dtype=float))
     for k2, v in cur.items():
       worst[k2] = max(worst[k2], v)
     obs = max(cur["qpos"], cur["actuator_force"], cur["sensordata"], cur["read_ctrl"])
-    if first is None and obs > 1e-3:
+    if first is None and obs > LOCKSTEP_TOL:
       first = {"step": s, "time": float(mjd.time), **cur}
   info["worst"] = worst
   info["worst_observable"] = max(worst["qpos"], worst["actuator_force"], worst["sensordata"], worst["read_ctrl"])
@@ -587,7 +605,7 @@ def oracle(res, nmodels, nsteps):
       info = lockstep(xml, ctrls, start, pre)
       res.count()
       w = info["worst"]
-      bad = info["worst_observable"] > 1e-3  # raw history layout may legitimately differ; what is applied / reported may not
+      bad = info["worst_observable"] > LOCKSTEP_TOL  # raw history layout may legitimately differ; what is applied / reported may not
       if not bad:
         res.nontrivial(("oracle", tag, start))
       if tag == "minimal" or (tag == "random0" and start == "put"):
@@ -709,7 +727,7 @@ def replay(res, path):
     print("initial history mjwarp :", info["history0_mjwarp"])
     print("worst differences      :", info["worst"])
     print("first disagreement     :", info["first_disagreement"])
-    return 0 if info["worst_observable"] <= 1e-3 else 1
+    return 0 if info["worst_observable"] <= LOCKSTEP_TOL else 1
   if "case" in r:
     W = launcher()
     final, states, reads = run_real(W, r["case"])
